@@ -83,6 +83,9 @@ func NewDirective(config DirectiveConfig) *Directive {
 		if dir.err = invariantf(!isNilType(argConfig.Type), `@%v(%v:) argument type must be Input Type but got: %v.`, config.Name, argName, argConfig.Type); dir.err != nil {
 			return dir
 		}
+		if dir.err = typeError(argConfig.Type); dir.err != nil {
+			return dir
+		}
 		if dir.err = invariantf(IsInputType(argConfig.Type), `@%v(%v:) argument type must be Input Type but got: %v.`, config.Name, argName, argConfig.Type); dir.err != nil {
 			return dir
 		}
